@@ -49,7 +49,9 @@ def cmdPing : Cmd := [[80, 73, 78, 71]]
 def cfg14 : Config := { minPipeline := 60, batchThreshold := 2, headerLen := 14, readSize := 8192,
                         maxBuffer := 1000000, checked := true, nameGuard := false, codec := codec1,
                         env := { depth := 64, mem := 1073741824 } }
-/-- the same after the fix of `check_acl_permission` (branch fixes-conn-s3): `parts.first()` -/
+/-- THE CODE AS IT IS since fix 5f3bab5 of `check_acl_permission` (`parts.first()`); `cfg14` keeps the
+    pinned `parts[0]` (`nameGuard := false`) for the counterexamples about the behaviour before the fix
+    (for pipelines without an empty / white-space-only command name the two behave alike: `CmdOK`) -/
 def cfgG : Config := { cfg14 with nameGuard := true }
 /-- the code before the fix commits: wrapping length arithmetic, the pinned decoder -/
 def cfgPinned : Config := { cfg14 with checked := false, codec := codec1Pinned }
@@ -79,12 +81,12 @@ theorem segmentation_independent_cmdok (cfg : Config) (h14 : cfg.headerLen = 14)
     run cfg segs = execAll cmds :=
   run_wf cfg h14 hc hd cmds segs h hs hmax hok
 
-/-- HEADER_LEN = 14 and the guarded `check_acl_permission` (after fix 700b928 on fixes-conn-s3) -/
+/-- HEADER_LEN = 14 and the guarded `check_acl_permission` — the code as it is (fix 5f3bab5) -/
 theorem segmentation_independent : C04_segmentation_independent 14 true :=
   fun cfg h14 hg hc hd cmds segs h hs hmax =>
     run_wf cfg h14 hc (by omega) cmds segs h hs hmax (fun _ _ => ⟨hd, Or.inl hg⟩)
 
-/-- PARTIAL, the code as it is (`parts[0]`): for pipelines in which no command NAME is empty or white
+/-- PARTIAL, the PINNED code before fix 5f3bab5 (`parts[0]`): for pipelines in which no command NAME is empty or white
     space only (`nameWs`, decidable) -/
 theorem segmentation_independent_partial (cfg : Config) (h14 : cfg.headerLen = 14) (hc : cfg.codec = codec1)
     (hd : 2 ≤ cfg.env.depth) (cmds : List Cmd) (segs : List Bytes) (h : segs.flatten = stream cmds)
@@ -93,10 +95,10 @@ theorem segmentation_independent_partial (cfg : Config) (h14 : cfg.headerLen = 1
     run cfg segs = execAll cmds :=
   run_wf cfg h14 hc (by omega) cmds segs h hs hmax (fun c hcm => ⟨hd, Or.inr (hname c hcm)⟩)
 
-/-- COUNTEREXAMPLE, the code as it is: `PING`, then the well-formed frame `*1\r\n$0\r\n\r\n` (a command
+/-- COUNTEREXAMPLE, PINNED behaviour (before fix 5f3bab5): `PING`, then the well-formed frame `*1\r\n$0\r\n\r\n` (a command
     whose name is the empty string), then `PING`: `check_acl_permission` indexes `parts[0]` of
     `"".split_whitespace()` and panics — ONE reply, then the task (release: the server) is gone
-    (known finding C04:crash:whitespace-command-name) -/
+    (fixed: known_findings.json 5f3bab5; the witness is a corpus case that must pass now) -/
 theorem empty_name_counterexample : ¬ C04_segmentation_independent 14 false := by
   intro h
   have := h cfg14 rfl rfl rfl (by decide) [cmdPing, cmdEmptyName, cmdPing]
@@ -259,11 +261,11 @@ def C04_malformed_no_crash (guard : Bool) : Prop :=
     maxNesting + 1 ≤ cfg.env.depth → cfg.maxBuffer < 72057594037927936 →
     ∀ (segs : List Bytes), hasCrash (run cfg segs) = false
 
-/-- holds with the guarded `check_acl_permission` (after fix 700b928 on fixes-conn-s3) -/
+/-- holds for the code as it is (guarded `check_acl_permission`, fix 5f3bab5) -/
 theorem malformed_no_crash : C04_malformed_no_crash true :=
   fun cfg hck hng hc hd hmax segs => run_no_crash cfg hck hng hc hd hmax segs
 
-/-- COUNTEREXAMPLE, the code as it is: 11 bytes `*1\r\n$0\r\n\r\n` -/
+/-- COUNTEREXAMPLE, PINNED behaviour (before fix 5f3bab5): 11 bytes `*1\r\n$0\r\n\r\n` -/
 theorem malformed_no_crash_counterexample : ¬ C04_malformed_no_crash false := by
   intro h
   have := h cfg14 rfl rfl rfl (by decide) (by decide) [stream [cmdEmptyName]]
@@ -271,7 +273,7 @@ theorem malformed_no_crash_counterexample : ¬ C04_malformed_no_crash false := b
   rw [this] at hc
   exact absurd hc (by decide)
 
-/-- PARTIAL, the code as it is: no panic on any segmentation of a well-formed pipeline in which no
+/-- PARTIAL, the PINNED code: no panic on any segmentation of a well-formed pipeline in which no
     command name is empty / white space only -/
 theorem no_crash_wellformed_partial (cfg : Config) (h14 : cfg.headerLen = 14) (hc : cfg.codec = codec1)
     (hd : 2 ≤ cfg.env.depth) (cmds : List Cmd) (segs : List Bytes) (h : segs.flatten = stream cmds)
@@ -559,7 +561,7 @@ theorem bytes_written_header13_counterexample : ¬ C04_bytes_written 13 true := 
   rw [this] at hl
   exact absurd hl (by decide)
 
-/-- the code as it is: after `PING` and the empty-named command the peer has the reply to PING only
+/-- PINNED behaviour (before fix 5f3bab5): after `PING` and the empty-named command the peer has the reply to PING only
     if the two arrive in different reads — in ONE read the panic takes the unflushed `+PONG` with it -/
 theorem bytes_written_empty_name_counterexample : ¬ C04_bytes_written 14 false := by
   intro h
